@@ -69,7 +69,7 @@ theorem firstof_is_escaped (sf ae : Bool) (v : V) (h : sf = false ∧ ae = true)
 
 /-- the global opt-out, for contrast: with autoescape off (`SetAutoescape(false)`, or inside an
     `autoescape off` region) a printed value is its text as it is — which is why the end-to-end
-    theorem below carries the hypothesis that the package default is on -/
+    result below carries the hypothesis that the package default is on -/
 theorem switch_off_prints_raw (sf : Bool) (v : V) : printed sf false v = v.v.toS ∧ firstofText sf false v = v.v.toS := by
   simp [printed, firstofText]
 
